@@ -203,6 +203,16 @@ def check_monotone(case):
         r = env.parse(f)
         if r['error'] is not None or r['result'] is not w:
             raise Violation('%s with v_a=%s v_b=%s -> %r' % (f, a, b, r), enc(r['result']), w)
+    # a date against a number: every operator answers as the serial does, on either side, whatever the size of the number
+    import math, operator
+    ops = {'<': operator.lt, '>': operator.gt, '=': operator.eq, '<=': operator.le, '>=': operator.ge, '<>': operator.ne}
+    for k, x in enumerate((sb, int(math.floor(sa)), int(math.floor(sa)) + 1, 0, -1, 2 ** 53 + 1, 10 ** 309, -(10 ** 400))):
+        env.P.set_variable('v_x', x)
+        for sym, fn in ops.items():
+            for f, w in (('v_a%sv_x' % sym, fn(sa, x)), ('v_x%sv_a' % sym, fn(x, sa)), ('B2%sv_x' % sym, fn(sa, x))):
+                r = env.parse(f)
+                if r['error'] is not None or r['result'] is not w:
+                    raise Violation('%s with v_a = B2 = %s (serial %r) and v_x = %s -> %r, the serial answers %r' % (f, a, sa, x if abs(x) < 10 ** 20 else 'an integer of %d bits' % x.bit_length(), r, w), enc(r['result']), w)
 
 
 offsets = st.one_of(st.sampled_from([0, 1, -1, 59, -59, 60, -60, 61, -61, 365, -365, 366, -366, 36524, -36524]),
@@ -372,7 +382,7 @@ LAWS = [
     Law('monotone', check_monotone, strategy=st.one_of(st.tuples(dt_strategy(), dt_strategy()).map(list),
                                                         st.tuples(dt_strategy(), st.integers(1, 5000)).map(lambda t: [t[0], (getdt(t[0]) + datetime.timedelta(milliseconds=t[1])).isoformat()] if getdt(t[0]).year < 9999 else [t[0], t[0]])),
         quick=2000, thorough=100000, nontrivial=lambda c: has_time(c[0]) or has_time(c[1]),
-        rule='pairs of date-times, arbitrary and 1-5000 ms apart: serials strictly ordered like the date-times; all six comparison operators, N and DATEVALUE agree'),
+        rule='pairs of date-times, arbitrary and 1-5000 ms apart: serials strictly ordered like the date-times; all six comparison operators, N and DATEVALUE agree; each date against eight numbers (the other serial, the whole days around its own, 0, -1, 2^53+1, 10^309, -10^400) on either side of every operator answers as its serial does'),
     Law('add_days', check_add_days, strategy=st.fixed_dictionaries({'d': dt_strategy(rd.MAR1_ORD), 'n': offsets, 'derived': st.sampled_from([0, 0, 0, 1, 2])}), quick=2000, thorough=100000,
         nontrivial=lambda c: c['n'] not in (0, 1) ,
         rule='date-time >= 1 March 1900 and offset n (boundary set, +-3e6 integers, dyadic fractions): date+n, n+date, date-n equal the reference date within 1 ms when it lies in 1 March 1900..9999, also element-wise over an array of offsets; in 2 of 5 cases the date-time (and the offset) are instances of classes that derive from datetime (int, float)'),
